@@ -7,6 +7,7 @@ import Cntgs.World
 import Cntgs.Compare
 import Cntgs.Emplace
 import Cntgs.RefIter
+import Cntgs.Matrix
 namespace Cntgs.Driver
 open Cntgs
 
@@ -133,6 +134,11 @@ def step (st : St) (line : String) : St × List String :=
     let a := kv rest "alloc"
     let bit (i : Nat) : Bool := (a.toList.getD i '0') == '1'
     ({ ps := ps, w := { acfg := { pocca := bit 0, pocma := bit 1, pocs := bit 2, ae := bit 3 } } }, [])
+  | ["matrix"] =>
+    let showOp (o : Op) : String := ((toString (repr o)).splitOn ".").getLast!
+    let showCat : Cat → String | .plain => "Plain" | .fixed => "Fixed" | .varying => "Varying" | .mixed => "Mixed"
+    let showVal : ValCat → String | .trivial => "Trivial" | .copyable => "Copyable" | .moveOnly => "MoveOnly"
+    (st, requiredCells.map (fun (o, c, v) => s!"cell {showOp o} {showCat c} {showVal v}"))
   | ["tables"] => (st, [tablesLine st.ps])
   | ["failat", k] => ({ st with w := { w with heap := { w.heap with fail := some k.toNat! } } }, ["ok"])
   | ["new", v, cap, bytes, fixed, alloc] =>
